@@ -18,6 +18,7 @@ def instances(tier):
     yield 'predefined-zone-beyond', dict(TOP, max_len=1, pre_zones_op='ZonesBeyond', pre_zones=[('z1', 28, 32)]), 'AlphaC05top', None
     yield 'predefined-global-beyond', dict(TOP, max_len=1, pre_zones_op='GlobalBeyond', pre_zones=[('GLOBAL', 0, 32)]), 'AlphaC05top', None
     yield 'zone-named-Global', dict(A, max_len=4 if tier == 'quick' else 5, pre_zones_op='ZonesCase', pre_zones=[('z4', 20, 25)]), 'AlphaC05case', None
+    yield 'include-len5', dict(A, max_len=5 if tier == 'quick' else 6, emit_inv='EmitInc'), 'AlphaC05inc', None
     yield 'mute-len4', dict(A, max_len=4 if tier == 'quick' else 5), 'AlphaC05mute', None
     if tier == 'quick':
         yield 'A-len3', dict(A, max_len=3), 'AlphaC05', None
